@@ -236,6 +236,18 @@ static void __attribute__((noinline)) bulk_count(int rooted, long* lost, long* t
   }
 }
 
+/* ownership chains and cycles built with ref(): Box -> Box -> Node, two Boxes owning each other, a Box owning itself */
+static void __attribute__((noinline)) cycles_build(long n) {
+  for (long i = 0; i < n; i++) {
+    var nd = new(Node, $I(1000 + i));
+    var inner = new(Box, nd);
+    var outer = alloc(Box); ref(outer, inner);            /* outer owns inner owns the Node */
+    var c1 = alloc(Box), c2 = alloc(Box); ref(c1, c2); ref(c2, c1);
+    if (i % 3 == 0) { var c3 = alloc(Box); ref(c3, c3); }
+    (void)outer;
+  }
+}
+
 static int kind_of(const char* s) { for (int k = 1; k <= K_TREEK; k++) if (!strcmp(s, KN[k])) return k; return 0; }
 
 static int wfd = 1;
@@ -387,6 +399,13 @@ static int __attribute__((noinline)) real_main(int argc, char** argv) {
       HC_TRY(do_collect(0); do_collect(1));
       bulk_count(0, &lost, &twice, &stale, &gone);
       ev_begin("bulk"); ev_int("n", n); ev_int("rooted", 0); ev_int("lost", lost); ev_int("twice", twice); ev_int("stale", stale); ev_int("gone", gone);
+      ev_str("exc", hc_exc); ev_int("line", cur_line); ev_end();
+    } else if (hc_is(0, "cycles")) {           /* cycles <n> : ownership chains and cycles become garbage and are collected */
+      long n = (long)hc_int(1); if (n > 20000) n = 20000;
+      bulkn = 0;
+      HC_TRY(cycles_build(n); scrub(); do_collect(0); do_collect(1); do_collect(0));
+      long twice = 0, gone = 0; for (long i = 0; i < n; i++) { if (fin_count[1000 + i] > 1) twice++; if (fin_count[1000 + i] == 1) gone++; }
+      ev_begin("bulk"); ev_int("n", n); ev_int("rooted", 0); ev_int("lost", 0); ev_int("twice", twice); ev_int("stale", 0); ev_int("gone", gone);
       ev_str("exc", hc_exc); ev_int("line", cur_line); ev_end();
     } else if (hc_is(0, "stop")) {
       stop(current(GC)); observe("stop", 0, 0, 0, "");
